@@ -245,6 +245,21 @@ func checkC19(c *Ctx) string {
 		// stateAsof: the loop is left with a result only on the t <= asof edge (evaluated), or exhausted
 		if sa := c.function(r2, "db19", "stateAsof"); sa != nil {
 			info := sa.Info()
+			var tvar types.Object
+			ForEachNode(sa, func(nd ast.Node) {
+				as, ok := nd.(*ast.AssignStmt)
+				if !ok || len(as.Rhs) != 1 || len(as.Lhs) != 3 {
+					return
+				}
+				if call, ok := ast.Unparen(as.Rhs[0]).(*ast.CallExpr); ok && sameFunc(Callee(info, call), readState) {
+					if id := identOf(as.Lhs[2]); id != nil {
+						tvar = info.Uses[id]
+						if tvar == nil {
+							tvar = info.Defs[id]
+						}
+					}
+				}
+			})
 			var brk []*ast.BranchStmt
 			par := parentMap(sa.Body)
 			ForEachNode(sa, func(nd ast.Node) {
@@ -263,11 +278,16 @@ func checkC19(c *Ctx) string {
 					// evaluate with t = 5: asof = 5 → true, asof = 4 → false, asof = 6 → true
 					ev := func(t, a int64) (bool, bool) {
 						env := &AbsEnv{Info: info, Atom: func(e ast.Expr) (constant.Value, bool) {
-							if id, ok := e.(*ast.Ident); ok && id.Name == "t" {
+							// the time of the candidate record: the third result of readState
+							if id, ok := e.(*ast.Ident); ok && tvar != nil && info.Uses[id] == tvar {
 								return constant.MakeInt64(t), true
 							}
-							if sel, ok := e.(*ast.SelectorExpr); ok && sel.Sel.Name == "asof" {
-								return constant.MakeInt64(a), true
+							// the requested time: any other int64-typed leaf
+							switch e.(type) {
+							case *ast.Ident, *ast.SelectorExpr:
+								if tt := info.TypeOf(e); tt != nil && types.Identical(tt.Underlying(), types.Typ[types.Int64]) {
+									return constant.MakeInt64(a), true
+								}
 							}
 							return nil, false
 						}}
